@@ -660,6 +660,21 @@ def store_and_read(path, kind, ver, objs, batch=40):
                         prob[k] = "items() returns under this key an object that differs from library[key]"
                 if sorted(canon(o) for o in vals) != sorted(want.values()):
                     prob.setdefault(okk[0], "values() is not the collection of the objects library[key] returns")
+                # what a read returns belongs to the caller: spoiling it must not change what the next read of the same key
+                # returns through the same handle (an object cache that hands out its own entries)
+                for k in okk[:30]:
+                    o1 = r[k]
+                    try:
+                        o1.name = "spoiled-by-the-caller"
+                        if o1.n_atoms:
+                            o1.atoms[0].label = "XX"; o1.atoms[0].attrib["spoiled"] = 1
+                            import numpy as _np
+                            _np.asarray(o1.coords)[...] = 7.25
+                        o1.attrib["spoiled"] = True
+                    except Exception:
+                        pass
+                    if canon(r[k]) != want[k]:
+                        prob[k] = "a second read of the same key through the same handle returns something else after the caller changed the object the first read had returned"
             except Exception as e:           # noqa
                 prob[okk[0]] = f"items()/values()/iteration raised {type(e).__name__}: {e}"[:300]
             for k, t in prob.items():
